@@ -44,6 +44,12 @@ MODES = {
     "ValueError":       ("raise ValueError('boom')", 1, False),
     "ZeroDivisionError": ("1/0", 1, False),
     "custom":           ("raise type('Custom', (Exception,), {})('x')", 1, False),
+    # exception objects with unusual data-model behaviour: unhashable (a dataclass exception: __eq__ without __hash__), falsy,
+    # with a __str__ / __repr__ that raises, compared equal to everything
+    "unhashable-exception": ("raise type('Unhashable', (Exception,), {'__eq__': lambda a, b: a is b, '__hash__': None})('x')", 1, False),
+    "falsy-exception":  ("raise type('Falsy', (Exception,), {'__bool__': lambda a: False, '__len__': lambda a: 0})()", 1, False),
+    "unprintable-exception": ("raise type('Unprintable', (Exception,), {'__str__': lambda a: 1 / 0, '__repr__': lambda a: 1 / 0})()", 1, False),
+    "equal-to-all-exception": ("raise type('EqAll', (Exception,), {'__eq__': lambda a, b: True, '__ne__': lambda a, b: False, '__hash__': lambda a: 0})()", 1, False),
     "KeyboardInterrupt": ("raise KeyboardInterrupt", "sigint", False),
     "raise SystemExit": ("raise SystemExit", 0, False),
     "raise SystemExit(0)": ("raise SystemExit(0)", 0, False),
